@@ -222,22 +222,28 @@ func (s *EtcdStore) CommitConsumerOffset(ctx context.Context, group, topic strin
 
 // FetchConsumerOffset implements Store.FetchConsumerOffset.
 func (s *EtcdStore) FetchConsumerOffset(ctx context.Context, group, topic string, partition int32) (int64, string, error) {
+	offset, metadata, _, err := s.LookupConsumerOffset(ctx, group, topic, partition)
+	return offset, metadata, err
+}
+
+// LookupConsumerOffset implements ConsumerOffsetLookup.
+func (s *EtcdStore) LookupConsumerOffset(ctx context.Context, group, topic string, partition int32) (int64, string, bool, error) {
 	ctx, cancel := context.WithTimeout(ctx, 3*time.Second)
 	defer cancel()
 	resp, err := s.client.Get(ctx, consumerOffsetKey(group, topic, partition))
 	if err != nil {
 		s.recordEtcdResult(err)
-		return 0, "", err
+		return 0, "", false, err
 	}
 	s.recordEtcdResult(nil)
 	if len(resp.Kvs) == 0 {
-		return 0, "", nil
+		return 0, "", false, nil
 	}
 	var rec consumerOffsetRecord
 	if err := json.Unmarshal(resp.Kvs[0].Value, &rec); err != nil {
-		return 0, "", err
+		return 0, "", false, err
 	}
-	return rec.Offset, rec.Metadata, nil
+	return rec.Offset, rec.Metadata, true, nil
 }
 
 // ListConsumerOffsets returns all committed offsets stored in etcd.
